@@ -6,6 +6,7 @@
 From Coq Require Import ZArith Reals Floats Lra Bool Psatz.
 From Flocq Require Import Core.Core IEEE754.BinarySingleNaN IEEE754.PrimFloat.
 From Geo Require Import Base.GoPrim Base.F64.
+From Geo Require Base.F64Arith.
 Local Open Scope R_scope.
 
 Notation rnd := (round radix2 (SpecFloat.fexp prec emax) (round_mode mode_NE)).
@@ -253,4 +254,89 @@ Lemma add_fin_inf d e : fin d -> Prim2B e = B754_infinity false -> nonnan (PrimF
 Proof.
   unfold fin. rewrite nonnan_B, add_equiv. intros F ->.
   destruct (Prim2B d); try discriminate; reflexivity.
+Qed.
+
+(** * Lower bounds that survive overflow (used to show that a guard fires for large margins) *)
+Lemma repr_small_int (z : Z) : (Z.abs z < 2 ^ 53)%Z -> rnd (IZR z) = IZR z.
+Proof.
+  intros H. apply round_generic; [apply valid_rnd_N|]. apply Geo.Base.F64Arith.repr_IZR. exact H.
+Qed.
+
+Lemma Bmult2_ge8 (m : bfloat) : is_nan m = false -> 4 <= rankB m ->
+  is_nan (Bmult mode_NE (Prim2B 2%float) m) = false /\ 8 <= rankB (Bmult mode_NE (Prim2B 2%float) m).
+Proof.
+  intros Nm Hm. pose proof top_pos as Tp.
+  assert (T8 : 8 < top).
+  { unfold top. change 8 with (bpow radix2 3). apply bpow_lt. reflexivity. }
+  assert (V2 : B2R (Prim2B 2%float) = 2).
+  { change (B2R (Prim2B 2%float)) with (Geo.Base.F64Arith.RV 2%float). Geo.Base.F64Arith.lit_value. }
+  assert (F2 : is_finite (Prim2B 2%float) = true) by reflexivity.
+  assert (S2 : Bsign (Prim2B 2%float) = false) by reflexivity.
+  destruct (is_finite m) eqn:Fm.
+  - rewrite (rankB_finite m Fm) in Hm.
+    pose proof (Bmult_correct prec emax Hprec Hmax mode_NE (Prim2B 2%float) m) as C.
+    destruct (Rlt_bool_spec (Rabs (rnd (B2R (Prim2B 2%float) * B2R m))) (bpow radix2 emax)) as [Hlt|Hge].
+    + destruct C as [Cv [Cf _]]. rewrite F2, Fm in Cf.
+      split; [destruct (Bmult mode_NE (Prim2B 2%float) m); try discriminate; reflexivity|].
+      rewrite (rankB_finite _ Cf), Cv, V2.
+      rewrite <- (repr_small_int 8) by (simpl; lia). apply rnd_le. lra.
+    + unfold binary_overflow in C. simpl in C. apply B2SF_infinity in C. rewrite C.
+      rewrite S2. destruct (Bsign m) eqn:Sm.
+      * apply sign_true_le0 in Sm. lra.
+      * simpl. split; [reflexivity|lra].
+  - destruct m as [s|[|]| |s mm e He]; try discriminate.
+    + simpl in Hm. lra.
+    + revert V2 F2 S2. destruct (Prim2B 2%float) as [s2|s2| |s2 m2 e2 H2]; simpl; intros V2 F2 S2;
+      try discriminate; try lra. subst s2. simpl. split; [reflexivity|lra].
+Qed.
+
+Lemma Bplus_ge7 (x y : bfloat) : is_finite x = true -> -1 <= B2R x ->
+  is_nan y = false -> 8 <= rankB y ->
+  is_nan (Bplus mode_NE x y) = false /\ 7 <= rankB (Bplus mode_NE x y).
+Proof.
+  intros Fx Hx Ny Hy. pose proof top_pos as Tp.
+  assert (T8 : 8 < top).
+  { unfold top. change 8 with (bpow radix2 3). apply bpow_lt. reflexivity. }
+  destruct (is_finite y) eqn:Fy.
+  - rewrite (rankB_finite y Fy) in Hy.
+    pose proof (Bplus_correct prec emax Hprec Hmax mode_NE x y Fx Fy) as C.
+    destruct (Rlt_bool_spec (Rabs (rnd (B2R x + B2R y))) (bpow radix2 emax)) as [Hlt|Hge].
+    + destruct C as [Cv [Cf _]].
+      split; [destruct (Bplus mode_NE x y); try discriminate; reflexivity|].
+      rewrite (rankB_finite _ Cf), Cv.
+      rewrite <- (repr_small_int 7) by (simpl; lia). apply rnd_le. lra.
+    + destruct C as [Co Cs]. unfold binary_overflow in Co. simpl in Co.
+      apply B2SF_infinity in Co. rewrite Co.
+      destruct (Bsign y) eqn:Sy.
+      * apply sign_true_le0 in Sy. lra.
+      * rewrite Cs. simpl. split; [reflexivity|lra].
+  - destruct y as [s|[|]| |s mm e He]; try discriminate.
+    + simpl in Hy. lra.
+    + destruct x as [sx|sx| |sx mx ex Hex]; try discriminate; simpl; split; try reflexivity; lra.
+Qed.
+
+Lemma mul2_ge8 m : nonnan m -> 4 <= rank m ->
+  nonnan (PrimFloat.mul 2%float m) /\ 8 <= rank (PrimFloat.mul 2%float m).
+Proof. rewrite !nonnan_B. unfold rank. rewrite mul_equiv. apply Bmult2_ge8. Qed.
+Lemma add_ge7 x y : fin x -> -1 <= rank x -> nonnan y -> 8 <= rank y ->
+  nonnan (PrimFloat.add x y) /\ 7 <= rank (PrimFloat.add x y).
+Proof.
+  unfold fin. rewrite !nonnan_B. unfold rank. rewrite add_equiv. intros F H.
+  apply Bplus_ge7; [exact F|]. rewrite (rankB_finite _ F) in H. exact H.
+Qed.
+Lemma nonnan_add_fin x y : nonnan x -> fin y -> 0 <= rank x -> nonnan (PrimFloat.add x y).
+Proof.
+  unfold fin. rewrite !nonnan_B. unfold rank. rewrite add_equiv. pose proof top_pos. intros Nx Fy Hx.
+  destruct (is_finite (Prim2B x)) eqn:Fx; [apply Bplus_nonnan_fin; assumption|].
+  destruct (Prim2B x) as [?|[|]| |? ? ? ?]; try discriminate.
+  - simpl in Hx. lra.
+  - destruct (Prim2B y); try discriminate; reflexivity.
+Qed.
+Lemma Bminus_nonnan_fin (a b : bfloat) : is_finite a = true -> is_finite b = true ->
+  is_nan (Bminus mode_NE a b) = false.
+Proof.
+  intros Fa Fb. pose proof (Bminus_correct prec emax Hprec Hmax mode_NE a b Fa Fb) as C.
+  destruct (Rlt_bool _ _).
+  - destruct C as [_ [Cf _]]. destruct (Bminus mode_NE a b); try discriminate; reflexivity.
+  - destruct C as [C _]. unfold binary_overflow in C. simpl in C. apply B2SF_infinity in C. rewrite C. reflexivity.
 Qed.
